@@ -350,6 +350,23 @@ def diff_tag1(a, b):
     return None
 
 
+def scrub(n):
+    """erase what other, independently recorded findings lose (so that a combination of two known
+    defects is still recognised): `<required T>` prints as `<T>`"""
+    if _is_node(n):
+        out = [n[0]]
+        for k, v in n[1:]:
+            if n[0] == 'TypeCast' and k == 'cardinality_mod' and v == 'CardinalityModifier.Required':
+                continue
+            out.append([k, scrub(v)])
+        return out
+    if isinstance(n, list):
+        return [scrub(v) for v in n]
+    if isinstance(n, dict):
+        return {k: scrub(v) for k, v in n.items()}
+    return n
+
+
 def diff_tag(chain):
     """classify the difference at the innermost ancestor pair where a known structural defect
     explains it exactly"""
@@ -358,6 +375,12 @@ def diff_tag(chain):
             t = diff_tag1(a, b)
             if t:
                 return t
+        for a, b in reversed(chain[-8:]):
+            sa, sb = scrub(a), scrub(b)
+            if sa != a or sb != b:
+                t = diff_tag1(sa, sb)
+                if t:
+                    return t
     except RecursionError:
         return None
     return None
@@ -1175,6 +1198,24 @@ def core_one(case):
     return {'items': items if err is None else err, 'back': real_parse_term(text)}
 
 
+def main_lexpairs():
+    """case = {"a": text, "b": text}: does the real lexer read a immediately followed by b as exactly
+    the tokens of a followed by the tokens of b?  -> {"ok": bool}"""
+    def lx(t):
+        r = rust_parser.tokenize(t)
+        if r.errors:
+            return None
+        return [(x.kind, x.text) for x in r.out if x.kind != 'EOI']
+    for line in sys.stdin:
+        line = line.rstrip('\n')
+        if not line:
+            print('{}')
+            continue
+        c = json.loads(line)
+        a, b, ab = lx(c['a']), lx(c['b']), lx(c['a'] + c['b'])
+        sys.stdout.write(json.dumps({'ok': a is not None and b is not None and ab is not None and ab == a + b}) + '\n')
+
+
 def main_core():
     for line in sys.stdin:
         line = line.rstrip('\n')
@@ -1195,5 +1236,7 @@ if __name__ == '__main__':
         main_grammar()
     elif MODE == 'core':
         main_core()
+    elif MODE == 'lexpairs':
+        main_lexpairs()
     else:
         raise SystemExit('unknown mode ' + MODE)
